@@ -235,10 +235,23 @@ def _lrepr_bool(o: bool, **_) -> str:
     return repr(o).lower()
 
 
+# The escape of every byte in a byte string literal: Python's own (which the reader
+# of byte strings understands), except that the double quote - the delimiter here -
+# is always escaped and the single quote never is
+_BYTES_ESCAPE_TABLE = {
+    **{c: f"\\x{c:02x}" for c in range(0x100)},
+    **{c: chr(c) for c in range(0x20, 0x7F)},
+    0x09: "\\t",
+    0x0A: "\\n",
+    0x0D: "\\r",
+    0x22: '\\"',
+    0x5C: "\\\\",
+}
+
+
 @lrepr.register(bytes)
 def _lrepr_bytes(o: bytes, **_) -> str:
-    v = repr(o)
-    return f'#b "{v[2:-1]}"'
+    return f'#b "{o.decode("latin-1").translate(_BYTES_ESCAPE_TABLE)}"'
 
 
 @lrepr.register(type(None))
